@@ -22,6 +22,7 @@ Binding      : spec -> code: every ordered pair of the universe is built from re
 from harness import core
 from harness.mem2_common import batch_verdicts, tlc_many, cfg_text, printed_tuple
 from harness import mem2_compare as mc
+from harness.mem2_child import run_child
 
 LEVEL = "model_checking"
 
@@ -127,6 +128,7 @@ def replay_universe(ctx, pools, universe, recs):
     for a in objs:
         for b in objs:
             if a.side["cd"] or b.side["cd"]:
+                ctx.about("%s ~ %s" % (a.what, b.what))
                 recs.append(pools.observe(a, b))
                 ctx.case(("universe", a.side["id"], b.side["id"]))
     ctx.cov["universe_objects_realized"] = len(objs)
@@ -152,16 +154,26 @@ def kind(side):
     return ("ptr" if side["ptr"] else "prim-" + side["v"]["k"]) if side["cd"] else "py-" + side["v"]["k"]
 
 
+def produce(cc, args):
+    """executed in a sub-process (harness.mem2_child): everything that touches the real cffi"""
+    pools = mc.Pools(cc.rng)
+    recs = []
+    replay_universe(cc, pools, args["universe"], recs)
+    nuni = len(recs)
+    for _ in range(5000 if cc.quick else 100000):
+        a, b = pools.pair()
+        cc.about("%s ~ %s" % (a.what, b.what))
+        recs.append(pools.observe(a, b))
+        cc.case((recs[-1]["what"][0], recs[-1]["what"][1]))
+    return {"recs": recs, "nuni": nuni}
+
+
 def run(ctx):
     universe = design_level(ctx)
-    pools = mc.Pools(ctx.rng)
-    recs = []
-    replay_universe(ctx, pools, universe, recs)
-    nuni = len(recs)
-    for _ in range(5000 if ctx.quick else 100000):
-        a, b = pools.pair()
-        recs.append(pools.observe(a, b))
-        ctx.case((recs[-1]["what"][0], recs[-1]["what"][1]))
+    out = run_child(ctx, "c17", {"universe": norm(universe)})
+    if out is None:
+        return
+    recs, nuni = out["recs"], out["nuni"]
     nbad, diverge = judge(ctx, recs)
     div = ["record %d %r: outcomes %r differ from the model" % (i, recs[i]["what"], recs[i]["res"]) for i in sorted(diverge)]
     ctx.cov["model_divergences"] = div[:10]
